@@ -96,10 +96,14 @@ Section Spec.
     | Collect | Unzip => match a_ops a with [] => None | l => Some l end
     | _ => None
     end.
-  (* sync `??`: the callback sees the value, the value is passed through *)
+  (* sync `??`: the callback sees the value, the value is passed through.
+     Ill-typed corner: a receiver that is a macro-generated closure (only an abstract `msem` / `dotsem` /
+     `callsem` can hand one back) is still shown to the callback first - `__inspect(f, r)` runs `f(&r)`
+     and fails only when `r` is returned as a value; anything else is ill-typed at once. *)
   Definition inspect_sem (f r : dval) : comp dval :=
     match f, r with
     | DV _, DV v | DF _, DV v => let! _ := apply callsem f [DV v] in Ret (DV v)
+    | DV _, DF _ | DF _, DF _ => let! _ := apply callsem f [r] in Panic P_ILLTYPED
     | _, _ => Panic P_ILLTYPED
     end.
 
